@@ -69,6 +69,7 @@ SPECS = {
     "GenC16Df": {
         "file": "rpylib/model/levymodel/exponentialoflevymodel.py",
         "dom": "R",
+        "class_decorators": {"ExponentialOfLevyModel": ["MomentsDecorator()"]},
         "funcs": [
             {"kind": "return_rhs", "py": "ExponentialOfLevyModel.df", "coq": "exp_df", "args": [("r", "R"), ("t", "R")],
              "ret": "R", "attrs": {"self.r": "r"}},
